@@ -21,6 +21,8 @@ open Hostd.Proto Hostd.Txn
 
 structure DState where
   fixed     : List String := []   -- repairs the configuration says the tree contains (`--fixed=a,b`)
+  focus     : List String := []   -- `--focus=p1,p2`: only verdicts whose name starts with one of these count
+                                  -- (C09 and C18 share the engine; a flag of the sibling must not end a history)
   dead      : Bool := false
   hists     : Nat := 0
   ops       : Nat := 0
@@ -109,6 +111,15 @@ def parseArgs (args : List String) : List String :=
 
 /-- the transaction the `k`-th statement point of a call belongs to (`kinds`: one letter per point,
 `c` = commit), as its letter in `txs` (`w` writing, `r` read-only) and whether a writing one came before -/
+def parseFocus (args : List String) : List String :=
+  args.foldl (fun acc a =>
+    if a.startsWith "--focus=" then acc ++ ((a.drop 8).toString.splitOn ",").filter (· ≠ "") else acc) []
+
+def inFocus (focus : List String) : Verdict → Bool
+  | .monitor nm _ => focus.isEmpty || focus.any (nm.startsWith ·)
+  | .mismatch f _ _ => focus.isEmpty || focus.any (f.startsWith ·)
+  | _ => true
+
 def followUpPoint (kinds txs : String) (k : Nat) : Bool :=
   let t := ((kinds.toList.take k).filter (· == 'c')).length
   let ts := txs.toList
@@ -197,7 +208,7 @@ def stepOp (d : DState) (l : Line) : DState × List Verdict :=
     let d := if twin == "ok" && name == "W.Register" then { d with hooksLive := d.hooksLive + 1 }
              else if twin == "ok" && name == "W.Remove" then { d with hooksLive := d.hooksLive - 1 } else d
     let vs := vShape ++ vF ++ vC ++ vR ++ vCache ++ vI ++ vStale
-    ({ d with dead := !vs.isEmpty }, vs)
+    (d, vs)
   | _, _, _, _, _, _, _, _, _, _ =>
     match getStr l.obs "bad" with
     | some why => (d, [.badline why])
@@ -221,7 +232,7 @@ def stepRestart (d : DState) (l : Line) : DState × List Verdict :=
       if stale then [.mismatch "ctor_fact/webhooks.NewManager" "does_not_load_selected" "hooks_served_after_restart"] else []
     let d := { d with restarts := d.restarts + 1, ctorStale := d.ctorStale + (if stale then 1 else 0) }
     let vs := vC ++ vD ++ vA ++ vI ++ vStale
-    ({ d with dead := !vs.isEmpty }, vs)
+    (d, vs)
   | _, _, _, _ =>
     match getStr l.obs "bad" with
     | some why => (d, [.badline why])
@@ -246,20 +257,30 @@ def stepResume (d : DState) (l : Line) : DState × List Verdict :=
     let vI : List Verdict := if integ == "ok" then [] else [.monitor "c09/integrity_check" s!"after_resume,result={integ}"]
     let d := { d with resumes := d.resumes + 1, batchSteps := d.batchSteps + steps.length }
     let vs := vT ++ vS ++ vE ++ vI
-    ({ d with dead := !vs.isEmpty }, vs)
+    (d, vs)
   | _, _, _, _ => (d, [.badline "resume fields"])
 
-def step (d : DState) (l : Line) : DState × List Verdict :=
-  if l.op == "reset" then ({ d with dead := false, hists := d.hists + 1, hooksLive := 0 }, [])
-  else if d.dead then (d, [])
-  else if l.op == "op" then stepOp d l
-  else if l.op == "restart" then stepRestart d l
+def stepRaw (d : DState) (l : Line) : DState × List Verdict :=
+  if l.op == "op" then stepOp d l
+  else if l.op == "restart" || l.op == "irestart" then stepRestart d l
   else if l.op == "resume" then stepResume d l
   else if l.op == "vop" then
     match getStr l.obs "twin", getStr l.obs "res" with
-    | some t, some r => if t == r then (d, []) else ({ d with dead := true }, [.mismatch "vop" t r])
+    | some t, some r => if t == r then (d, []) else (d, [.mismatch "vop" t r])
     | _, _ => (d, [.badline "vop fields"])
   else (d, [.badline "unknown op"])
+
+/-- Verdicts outside the focus are dropped.  A flagged `op`/`resume` line ends the history (the two
+sides may have diverged); a flagged restart line does not: every restart line compares one side with
+itself before/after, so later restarts of the same history remain meaningful. -/
+def step (d : DState) (l : Line) : DState × List Verdict :=
+  if l.op == "reset" then ({ d with dead := false, hists := d.hists + 1, hooksLive := 0 }, [])
+  else if d.dead then (d, [])
+  else
+    let (d', vs) := stepRaw d l
+    let vs := vs.filter (inFocus d.focus)
+    let fatal := !vs.isEmpty && !(l.op == "restart" || l.op == "irestart")
+    ({ d' with dead := fatal }, vs)
 
 def stats (d : DState) : String :=
   s!"hists={d.hists} ops={d.ops} faults={d.faults} kills={d.kills} retries={d.retries} restarts={d.restarts} resumes={d.resumes} batchsteps={d.batchSteps} opkinds={d.opsSeen.length} deviant_seen={d.deviantSeen} deviant_fixed={d.deviantFixed} ctor_fact_stale={d.ctorStale} fixed={"+".intercalate d.fixed}"
